@@ -198,5 +198,8 @@ def run(check, ctx):
     # the Merkle-Damgard hashes with the compression function uninterpreted: padding, length field, serialisation, IVs
     from . import c_md
     c_md.md_tables(check, ctx)
+    # KangarooTwelve's tree bookkeeping in Python
+    from . import c09_extra
+    c09_extra.k12_tree_rows(check, repo)
     check.undecided.append("digest values: compression functions, the compression functions and the Keccak permutation themselves; MD2/MD4/BLAKE2 padding in C; "
                            "KangarooTwelve tree bookkeeping values; Poly1305 beyond the boundary table")
